@@ -28,7 +28,10 @@ Expected(ref, tokens, stack, marker) ==
       first == IF mine = {} THEN 0 ELSE CHOOSE i \in mine : tokens[i][2] = off
       val == IF mine = {} THEN -1 ELSE IF tokens[first][1] \in ToSet(ref.hterms) THEN 1000 + off ELSE off
       Any == -99          \* a nullable list without tokens is present and empty: where it sits is not checked
-  IN CASE ref.star /\ mine = {} -> IF ref.val = "none" THEN <<Any, Any>> ELSE <<Any, Any, Any>>
+      sorted == LET RECURSIVE Srt(_) Srt(T) == IF T = {} THEN <<>> ELSE <<Min(T)>> \o Srt(T \ {Min(T)}) IN Srt(mine)
+  IN CASE ref.form = "occ" ->          \* the occ-th occurrence of a repeated symbol, -1 if the instance has fewer
+            IF ref.occ + 1 <= Len(sorted) THEN <<tokens[sorted[ref.occ + 1]][2], tokens[sorted[ref.occ + 1]][3]>> ELSE <<-1, -1>>
+       [] ref.star /\ mine = {} -> IF ref.val = "none" THEN <<Any, Any>> ELSE <<Any, Any, Any>>
        [] ref.form = "first" -> <<from>>
        [] ref.form = "last" -> <<to>>
        [] ref.form = "left" -> <<from, to>>
